@@ -17,7 +17,7 @@ func init() { register("C09", c09) }
 func c09(c *Ctx) {
 	r := c.R
 	r.Explanation = "Partial: structural clauses of the LevelDB-backed raft.LogStore/StableStore. (L1) key-space separation: every stable-store method prepends the same constant prefix, every log method derives an 8-byte big-endian key from the index, the index scans skip keys with that same prefix, and the prefix cannot be mistaken for a log key; (L2) sibling agreement of the four stable-store methods and of the log writers (every entry handed to StoreLogs is written, keyed by its own index; batches are written and their error returned); (L3) the error contract: not-found maps to raft.ErrLogNotFound / zero value, empty stores report index 0; (L4) the interval convention: GetBulkIterator is half-open, built from start/limit in that order, and every caller passes its inclusive upper bound + 1; DeleteRange deletes every key of its range. Equality with an in-memory model over all operation sequences and reopen points is behavioural and not decided."
-	r.Rules = []string{"C09.L1 key-space separation", "C09.L2 sibling agreement", "C09.L3 error contract", "C09.L4 interval convention"}
+	r.Rules = []string{"C09.L1 key-space separation", "C09.L2 sibling agreement", "C09.L3 error contract", "C09.L4 interval convention", "C09.L5 error discipline", "C09.L6 lock hygiene", "C09.L7 key of the written entry", "C09.L8 conversion on open", "C09.L9 iterator discipline"}
 
 	store := c.P.Named("raftstore", "LevelDBStore")
 	if store == nil {
@@ -361,6 +361,124 @@ func c09(c *Ctx) {
 		r.Check(ok, "C09.L2", fi.Name(), "returns the result of writing the batch", c.P.Pos(fi.Node().Pos()), "return s.db.Write(&batch, nil)", name+" does not return the error of the LevelDB write")
 	}
 
+	// ---------- L5 error discipline of the store and the entry decoder
+	{
+		nErr := 0
+		for _, pkg := range []string{"raftstore", "raftlog"} {
+			for _, fi := range c.P.FuncsIn(pkg) {
+				if fi.Body() == nil {
+					continue
+				}
+				nErr += c.errorDiscipline("C09.L5", fi, "raft takes a nil error from its log / stable store as 'durably stored' or 'this is the entry'")
+			}
+		}
+		r.Ok("C09.L5", "raftstore, raftlog", "error definitions inspected", "-", itoa(nErr))
+		if nErr < 15 {
+			r.Break("C09.L5: only %d error definitions found in raftstore/raftlog (expected >= 15)", nErr)
+		}
+	}
+
+	// ---------- L6 lock hygiene (a store method that returns with s.mu held blocks every later call of raft)
+	{
+		var ms []*load.FuncInfo
+		for _, fi := range c.P.FuncsIn("raftstore") {
+			if fi.Body() != nil && fi.Obj != nil {
+				if sig, ok := fi.Obj.Type().(*types.Signature); ok && sig.Recv() != nil {
+					ms = append(ms, fi)
+				}
+			}
+		}
+		c.lockHygiene("C09.L6", ms, "the next call of raft into the store blocks forever", "after which every call of raft into the store blocks forever")
+		r.Floor("C09.L6", 20)
+	}
+	// ---------- L7 the key of a written entry is the encoding of that entry's index: on every path from the start of the
+	// iteration (or of the function) to batch.Put(key, …) the key buffer was filled by PutUint64(key, <entry>.Index)
+	for _, name := range []string{"StoreLogs", "StoreLogProto"} {
+		fi := method(name)
+		if fi == nil {
+			continue
+		}
+		info := fi.Info()
+		g := c.Graph(fi)
+		nPut := 0
+		for _, v := range g.Nodes() {
+			for _, call := range astx.Calls(v.Node, false) {
+				se, ok := ast.Unparen(call.Fun).(*ast.SelectorExpr)
+				if !ok || se.Sel.Name != "Put" || len(call.Args) != 2 {
+					continue
+				}
+				fn := astx.Callee(info, call)
+				if fn == nil || fn.Pkg() == nil || fn.Pkg().Path() != pathLevelDB {
+					continue
+				}
+				kid, ok := ast.Unparen(call.Args[0]).(*ast.Ident)
+				if !ok {
+					continue
+				}
+				nPut++
+				key := astx.Obj(info, kid)
+				isEnc := func(x int) bool {
+					if g.V[x].Node == nil {
+						return false
+					}
+					for _, c2 := range astx.Calls(g.V[x].Node, false) {
+						if _, m := endianOf(info, c2); m == "PutUint64" && len(c2.Args) == 2 {
+							if id, ok := ast.Unparen(c2.Args[0]).(*ast.Ident); ok && astx.Obj(info, id) == key {
+								if se2, ok := ast.Unparen(c2.Args[1]).(*ast.SelectorExpr); ok && se2.Sel.Name == "Index" {
+									return true
+								}
+							}
+						}
+					}
+					return false
+				}
+				// start of the innermost enclosing loop body, else the function entry
+				start := g.Entry
+				var best ast.Node
+				ast.Inspect(fi.Body(), func(n ast.Node) bool {
+					var body *ast.BlockStmt
+					switch x := n.(type) {
+					case *ast.RangeStmt:
+						body = x.Body
+					case *ast.ForStmt:
+						body = x.Body
+					}
+					if body != nil && body.Pos() <= call.Pos() && call.End() <= body.End() && len(body.List) > 0 {
+						best = body.List[0]
+					}
+					return true
+				})
+				if best != nil {
+					start = g.VertexOf(best)
+				}
+				ok2 := start >= 0 && (isEnc(start) || !g.Reach(start, isEnc, nil)[v.ID])
+				r.Check(ok2, "C09.L7", fi.Name(), "the key of every Put was filled from the entry's index in the same iteration", c.P.Pos(call.Pos()), "PutUint64(key, <entry>.Index) on every path from the iteration start",
+					"an entry can be written under a key buffer that was not (re)filled with its own index: it lands under the previous entry's key or under key 0, overwriting that entry, and GetLog / LastIndex no longer find it")
+			}
+		}
+		if nPut == 0 {
+			r.Break("C09.L7: no batch.Put found in %s", name)
+		}
+	}
+
+	// ---------- L9 iterator discipline
+	{
+		nPos := 0
+		for _, fi := range c.P.FuncsIn("raftstore") {
+			if fi.Body() != nil {
+				nPos += c.iteratorDiscipline("C09.L9", fi)
+			}
+		}
+		r.Ok("C09.L9", "raftstore", "iterator positioning calls inspected", "-", itoa(nPos))
+		if nPos < 8 {
+			r.Break("C09.L9: only %d iterator positioning calls found in raftstore (expected >= 8)", nPos)
+		}
+	}
+	// ---------- L8 the JSON -> protobuf conversion on open
+	if fi := method("ConvertToProto"); fi != nil {
+		c.c09Convert(fi)
+	}
+
 	// ---------- L4 interval convention
 	gbi := method("GetBulkIterator")
 	if gbi != nil {
@@ -379,6 +497,41 @@ func c09(c *Ctx) {
 				ds, dl := deps.Of(st), deps.Of(li)
 				if ds[params[0]] && !ds[params[1]] && dl[params[1]] && !dl[params[0]] {
 					okRange = true
+				}
+			}
+		}
+		// … and each bound is the big-endian encoding of its parameter, written on every path before the range is built
+		if len(params) == 2 {
+			gg := c.Graph(gbi)
+			for _, cl := range compositeLitsOfAny(info, gbi.Body(), "github.com/syndtr/goleveldb/leveldb/util") {
+				lv := gg.VertexOf(cl)
+				for k, fld := range []string{"Start", "Limit"} {
+					val := litField(cl, fld)
+					if val == nil {
+						continue
+					}
+					kid, ok := ast.Unparen(val).(*ast.Ident)
+					okEnc := false
+					if ok && lv >= 0 {
+						key := astx.Obj(info, kid)
+						okEnc = gg.DominatedBy(lv, func(x *cfgx.Vertex) bool {
+							if x.Node == nil {
+								return false
+							}
+							for _, c2 := range astx.Calls(x.Node, false) {
+								if en, m := endianOf(info, c2); m == "PutUint64" && en == "BigEndian" && len(c2.Args) == 2 {
+									if id, ok := ast.Unparen(c2.Args[0]).(*ast.Ident); ok && astx.Obj(info, id) == key {
+										if pid, ok := ast.Unparen(stripConv(info, c2.Args[1])).(*ast.Ident); ok && astx.Obj(info, pid) == params[k] {
+											return true
+										}
+									}
+								}
+							}
+							return false
+						})
+					}
+					r.Check(okEnc, "C09.L4", gbi.Name(), "bound "+fld+" is the big-endian encoding of its parameter", c.P.Pos(val.Pos()), "binary.BigEndian.PutUint64(<key>, <param>) dominates the range",
+						"the "+fld+" key of the bulk range is not filled with the big-endian encoding of the parameter on every path: the range starts at key 0 / ends at key 0, so DeleteRange and the snapshot iterate the wrong entries")
 				}
 			}
 		}
@@ -557,4 +710,263 @@ func c09(c *Ctx) {
 		r.Check(okDel, "C09.L4", fi.Name(), "deletes every key of the range", c.P.Pos(fi.Node().Pos()), "unconditional batch.Delete(iterator.Key()) in the loop", "DeleteRange does not delete every key the iterator yields")
 	}
 	var _ = cfgx.NoReturn
+}
+
+// c09Convert (L8): ConvertToProto re-encodes every JSON entry in place. Necessary conditions for "after a JSON-to-protobuf
+// conversion the look-ups return the same entries, decoding to the same replicated message":
+//   (a) an entry that was re-encoded is put back before the iterator moves on or the function ends (error exits excepted);
+//   (b) what is put under the entry's key is the encoding of the raft.Log envelope (proto.Marshal of the pb.RaftLog), not
+//       a value left over from an earlier step;
+//   (c) the payload is re-encoded only for command entries, from the message decoded in this iteration
+//       (NewMessageFromBytes -> CopyToProtoMessage -> Marshal);
+//   (d) every way back to the loop head advances the iterator, and where the iterator is exhausted the loop is left.
+func (c *Ctx) c09Convert(fi *load.FuncInfo) {
+	r := c.R
+	info := fi.Info()
+	g := c.Graph(fi)
+	isPB := func(e ast.Expr, name string) bool {
+		t := info.TypeOf(e)
+		if p, ok := t.(*types.Pointer); ok {
+			t = p.Elem()
+		}
+		return astx.IsNamed(t, pathProto, name)
+	}
+	marshalOf := func(n ast.Node, name string) *ast.CallExpr {
+		if n == nil {
+			return nil
+		}
+		for _, call := range astx.Calls(n, false) {
+			fn := astx.Callee(info, call)
+			if fn != nil && fn.Name() == "Marshal" && fn.Pkg() != nil && strings.HasSuffix(fn.Pkg().Path(), "/proto") && len(call.Args) == 1 && isPB(call.Args[0], name) {
+				return call
+			}
+		}
+		return nil
+	}
+	isLevelCall := func(n ast.Node, names ...string) bool {
+		if n == nil {
+			return false
+		}
+		for _, call := range astx.Calls(n, false) {
+			se, ok := ast.Unparen(call.Fun).(*ast.SelectorExpr)
+			if !ok {
+				continue
+			}
+			fn := astx.Callee(info, call)
+			if fn == nil || fn.Pkg() == nil || !strings.Contains(fn.Pkg().Path(), "goleveldb") {
+				continue
+			}
+			for _, nm := range names {
+				if se.Sel.Name == nm {
+					return true
+				}
+			}
+		}
+		return false
+	}
+	isPut := func(x int) bool { return isLevelCall(g.V[x].Node, "Put") }
+	isNext := func(x int) bool { return isLevelCall(g.V[x].Node, "Next") }
+	errEdge := func(e *cfgx.Edge) bool {
+		if e.Cond == nil {
+			return false
+		}
+		x, isNil, ok := nilCompare(info, cfgx.Fact{Expr: e.Cond, Val: e.Val})
+		if !ok || isNil {
+			return false
+		}
+		t := info.TypeOf(x)
+		return t != nil && types.Identical(t, types.Universe.Lookup("error").Type())
+	}
+	// (a)
+	nEnv := 0
+	for _, v := range g.Nodes() {
+		call := marshalOf(v.Node, "RaftLog")
+		if call == nil {
+			continue
+		}
+		nEnv++
+		reach := g.Reach(v.ID, isPut, errEdge)
+		bad := reach[g.Exit]
+		for x := range g.V {
+			if reach[x] && x != v.ID && isNext(x) {
+				bad = true
+			}
+		}
+		r.Check(!bad, "C09.L8", fi.Name(), "a re-encoded entry is put back before the iterator moves on", c.P.Pos(call.Pos()), "every non-error path from the Marshal of the envelope passes batch.Put",
+			"an entry is re-encoded but not written back on some path: it stays in the old encoding or, with the marker already assumed, is lost to the readers")
+	}
+	if nEnv < 2 {
+		r.Break("C09.L8: only %d Marshal(pb.RaftLog) calls found in ConvertToProto (expected 2: non-command and command entries)", nEnv)
+	}
+	// (b)
+	for _, v := range g.Nodes() {
+		if !isPut(v.ID) {
+			continue
+		}
+		var put *ast.CallExpr
+		for _, call := range astx.Calls(v.Node, false) {
+			if se, ok := ast.Unparen(call.Fun).(*ast.SelectorExpr); ok && se.Sel.Name == "Put" && len(call.Args) == 2 {
+				put = call
+			}
+		}
+		if put == nil {
+			continue
+		}
+		// the value: append([]byte{'p'}, v...) or v
+		var vid *ast.Ident
+		ast.Inspect(put.Args[1], func(n ast.Node) bool {
+			if id, ok := n.(*ast.Ident); ok {
+				if _, isVar := astx.Obj(info, id).(*types.Var); isVar {
+					vid = id
+				}
+			}
+			return true
+		})
+		okVal := false
+		why := "value is not a local"
+		if vid != nil {
+			obj := astx.Obj(info, vid)
+			var defs []int
+			for _, d := range g.Nodes() {
+				if as, ok := d.Node.(*ast.AssignStmt); ok {
+					for _, l := range as.Lhs {
+						if id, ok := l.(*ast.Ident); ok && astx.Obj(info, id) == obj {
+							defs = append(defs, d.ID)
+						}
+					}
+				}
+			}
+			isDef := func(x int) bool {
+				for _, d := range defs {
+					if d == x {
+						return true
+					}
+				}
+				return false
+			}
+			okVal, why = len(defs) > 0, "every definition reaching the Put is proto.Marshal of the pb.RaftLog"
+			for _, d := range defs {
+				reaches := false
+				for _, e := range g.V[d].Succ {
+					if e.To == v.ID || g.Reach(e.To, isDef, nil)[v.ID] {
+						reaches = true
+					}
+				}
+				if reaches && marshalOf(g.V[d].Node, "RaftLog") == nil {
+					okVal, why = false, "a definition at "+c.P.Pos(g.V[d].Node.Pos())+" that is not the envelope encoding reaches the Put"
+				}
+			}
+		}
+		r.Check(okVal, "C09.L8", fi.Name(), "what is put back is the encoded raft.Log envelope", c.P.Pos(put.Pos()), why,
+			"the value written under the entry's key is not the protobuf encoding of the pb.RaftLog built in this iteration ("+why+"): GetLog decodes something else, e.g. the bare payload as an envelope")
+	}
+	// (c)
+	nMsg := 0
+	for _, v := range g.Nodes() {
+		call := marshalOf(v.Node, "RobustMessage")
+		if call == nil {
+			continue
+		}
+		nMsg++
+		var loopStart = -1
+		ast.Inspect(fi.Body(), func(n ast.Node) bool {
+			if fs, ok := n.(*ast.ForStmt); ok && fs.Body.Pos() <= call.Pos() && call.End() <= fs.Body.End() && len(fs.Body.List) > 0 {
+				loopStart = g.VertexOf(fs.Body.List[0])
+			}
+			return true
+		})
+		isCopy := func(x int) bool {
+			if g.V[x].Node == nil {
+				return false
+			}
+			for _, c2 := range astx.Calls(g.V[x].Node, false) {
+				if fn := astx.Callee(info, c2); fn != nil && fname(fn) == "CopyToProtoMessage" && len(c2.Args) == 1 && astx.Same(info, c2.Args[0], call.Args[0]) {
+					return true
+				}
+			}
+			return false
+		}
+		okCopy := loopStart >= 0 && !g.Reach(loopStart, isCopy, nil)[v.ID]
+		r.Check(okCopy, "C09.L8", fi.Name(), "the payload encoded is the message decoded in this iteration", c.P.Pos(call.Pos()), "CopyToProtoMessage into the same value on every path from the iteration start",
+			"the protobuf payload is marshalled from a value that was not filled from this entry's message on some path: the entry gets the previous entry's payload (or an empty one)")
+		okCmd := false
+		for _, f := range g.FactsAt(v.ID) {
+			if be, ok := ast.Unparen(f.Expr).(*ast.BinaryExpr); ok && f.Tag == nil && (refersTo(info, be.Y, pathRaft, "LogCommand") || refersTo(info, be.X, pathRaft, "LogCommand")) {
+				if (be.Op == token.NEQ && !f.Val) || (be.Op == token.EQL && f.Val) {
+					okCmd = true
+				}
+			}
+		}
+		r.Check(okCmd, "C09.L8", fi.Name(), "only command entries have their payload re-encoded", c.P.Pos(call.Pos()), "dominated by Type == raft.LogCommand",
+			"the payload of a non-command entry (configuration change, barrier, no-op) is decoded as a robust.Message and re-encoded: its data is replaced by an encoded empty message and raft loses the membership change")
+	}
+	if nMsg < 1 {
+		r.Break("C09.L8: no Marshal(pb.RobustMessage) found in ConvertToProto")
+	}
+	// (d)
+	ast.Inspect(fi.Body(), func(n ast.Node) bool {
+		fs, ok := n.(*ast.ForStmt)
+		if !ok || len(fs.Body.List) == 0 || marshalOfAny(info, fs.Body) == 0 {
+			return true
+		}
+		start := g.VertexOf(fs.Body.List[0])
+		condV := -1
+		if fs.Cond != nil {
+			condV = g.VertexAt(fs.Cond.Pos(), fs.Cond.End())
+		}
+		head := condV
+		if head < 0 {
+			head = start
+		}
+		// every way from the body start back to the head passes Next()
+		back := false
+		if start >= 0 {
+			reach := g.Reach(start, func(x int) bool { return isNext(x) || x == head }, nil)
+			for x := range g.V {
+				if !reach[x] && x != start {
+					continue
+				}
+				for _, e := range g.V[x].Succ {
+					if e.To == head && !isNext(x) {
+						back = true
+					}
+				}
+			}
+		}
+		r.Check(start >= 0 && !back, "C09.L8", fi.Name(), "every way back to the loop head advances the iterator", c.P.Pos(fs.Pos()), "i.Next() on every path from the body start to the next iteration",
+			"the conversion loop can start its next iteration without having advanced the iterator: it converts the same entry forever and the store never opens")
+		// where Next() says false the loop is left
+		for _, v := range g.V {
+			for _, e := range v.Succ {
+				if e.Cond == nil || !(fs.Body.Pos() <= e.Cond.Pos() && e.Cond.End() <= fs.Body.End()) {
+					continue
+				}
+				exhausted := false
+				for _, cl := range c.clausesOf(info, fi.Node(), e.Cond, e.Val, 0) {
+					if len(cl) == 1 && !cl[0].Pos {
+						if call, ok := ast.Unparen(cl[0].E).(*ast.CallExpr); ok && isLevelCall(call, "Next") {
+							exhausted = true
+						}
+					}
+				}
+				if !exhausted {
+					continue
+				}
+				again := e.To == start || g.Reach(e.To, nil, nil)[start]
+				r.Check(!again, "C09.L8", fi.Name(), "the loop is left where the iterator is exhausted", c.P.Pos(e.Cond.Pos()), "no path from the Next()==false edge back into the loop body",
+					"after Next() returned false the loop body runs again on an invalid iterator: the empty value does not decode, ConvertToProto returns an error and the store cannot be opened")
+			}
+		}
+		return true
+	})
+}
+
+func marshalOfAny(info *types.Info, n ast.Node) int {
+	k := 0
+	for _, call := range astx.Calls(n, false) {
+		if fn := astx.Callee(info, call); fn != nil && fn.Name() == "Marshal" && fn.Pkg() != nil && strings.HasSuffix(fn.Pkg().Path(), "/proto") {
+			k++
+		}
+	}
+	return k
 }
